@@ -40,11 +40,15 @@ pub fn words_to_bytes(words: &[u64]) -> &[u8] {
 
 /// Read u64 words from raw bytes.
 ///
-/// The byte slice length must be a multiple of 8.
+/// The byte slice length must be a multiple of 8, and because the result
+/// borrows `bytes` as `&[u64]` the slice must also start at an 8-byte-aligned
+/// address (true for mmap'd files and for bytes obtained from
+/// [`words_to_bytes`]). Use [`bytes_to_words_vec`] for arbitrary slices.
 ///
 /// # Panics
 ///
-/// Panics if `bytes.len()` is not a multiple of 8.
+/// Panics if `bytes.len()` is not a multiple of 8, or if `bytes` is not
+/// 8-byte aligned.
 #[inline]
 pub fn bytes_to_words(bytes: &[u8]) -> &[u64] {
     if bytes.is_empty() {
@@ -60,28 +64,41 @@ pub fn bytes_to_words(bytes: &[u8]) -> &[u64] {
 
 /// Read u64 words from raw bytes, returning owned Vec.
 ///
-/// The byte slice length must be a multiple of 8.
+/// The byte slice length must be a multiple of 8. The slice may start at any
+/// address: the words are copied out, not reinterpreted in place.
 ///
 /// # Panics
 ///
 /// Panics if `bytes.len()` is not a multiple of 8.
 pub fn bytes_to_words_vec(bytes: &[u8]) -> Vec<u64> {
-    bytes_to_words(bytes).to_vec()
+    assert!(
+        bytes.len() % 8 == 0,
+        "byte slice length must be a multiple of 8, got {}",
+        bytes.len()
+    );
+    // Same byte order as `words_to_bytes` (a plain reinterpretation), but
+    // without its alignment requirement.
+    bytes
+        .chunks_exact(8)
+        .map(|chunk| {
+            let mut word = [0u8; 8];
+            word.copy_from_slice(chunk);
+            u64::from_ne_bytes(word)
+        })
+        .collect()
 }
 
 /// Try to read u64 words from raw bytes.
 ///
-/// Returns `None` if `bytes.len()` is not a multiple of 8.
+/// Returns `None` if `bytes.len()` is not a multiple of 8, or if `bytes` does
+/// not start at an 8-byte-aligned address (a `&[u64]` cannot view misaligned
+/// memory; [`bytes_to_words_vec`] copies and accepts any slice). Never panics.
 #[inline]
 pub fn try_bytes_to_words(bytes: &[u8]) -> Option<&[u64]> {
     if bytes.is_empty() {
         return Some(&[]);
     }
-    if bytes.len() % 8 == 0 {
-        Some(cast_slice(bytes))
-    } else {
-        None
-    }
+    bytemuck::try_cast_slice(bytes).ok()
 }
 
 /// Memory-mapped file support for zero-copy access.
